@@ -163,7 +163,7 @@ def run(chk, replay_input=None):
     elif quick:
         data, secs = vlib.run_harness("frame", chk.tmp("frame.json"), seed=chk.seed, n=36, garbage=260, maxcut2=60, nrand=10)
     else:
-        data, secs = vlib.run_harness("frame", chk.tmp("frame.json"), timeout=1500, seed=chk.seed, n=400, garbage=3000, maxcut2=90, nrand=40)
+        data, secs = vlib.run_harness("frame", chk.tmp("frame.json"), timeout=1500, seed=chk.seed, n=700, garbage=5000, maxcut2=90, nrand=40)
     for k in ("reads", "prefixes", "drives", "writes"):
         data[k] = data.get(k) or []
         for c in data[k]:
